@@ -44,11 +44,11 @@ def model_check(res, tier):
 
 def generate(tier, rng):
     scen = []
-    num = 150 if tier == "quick" else 8000
+    num = 500 if tier == "quick" else 8000
     cfg = write_cfg("Gen_C09.cfg", "SPECIFICATION Spec\nCONSTANTS\n  MaxLen = 6\n  D = 12\n  MaxCmd = 2\nCONSTRAINT Bound\nINVARIANT Dump\nCHECK_DEADLOCK FALSE\n")
-    for b in tlc_generate("Gen_C09.tla", cfg, "sim", num=num, depth=13, timeout=1500, tag="c09g")[:num * 2]:
+    for b in tlc_generate("Gen_C09.tla", cfg, "sim", num=num, depth=18, timeout=1500, tag="c09g")[:num * 2]:
         scen.append({"cfg": b[0], "src": "tlc-sim", "steps": b[1:]})
-    for k in range(100 if tier == "quick" else 4000):
+    for k in range(300 if tier == "quick" else 4000):
         ln = rng.randint(1, 60)
         lo = rng.randint(0, ln - 1) if rng.random() < 0.5 else 0
         hi = rng.randint(lo + 1, ln) if rng.random() < 0.5 else ln
